@@ -324,8 +324,18 @@ func ruleDEDUPKEY(c *Ctx) []Obligation {
 			if !ok || len(is.Body.List) == 0 {
 				return true
 			}
-			br, ok := is.Body.List[len(is.Body.List)-1].(*ast.BranchStmt)
-			if !ok || br.Tok != token.CONTINUE {
+			// the duplicate is skipped: `continue` in the loop, or a bare `return` when the step is a
+			// method of a merger object (m.add(attr))
+			switch last := is.Body.List[len(is.Body.List)-1].(type) {
+			case *ast.BranchStmt:
+				if last.Tok != token.CONTINUE {
+					return true
+				}
+			case *ast.ReturnStmt:
+				if len(last.Results) != 0 {
+					return true
+				}
+			default:
 				return true
 			}
 			var ix *ast.IndexExpr
@@ -1085,111 +1095,149 @@ func ruleENCBARE(c *Ctx) []Obligation {
 		if !bare {
 			return
 		}
-		// byte expressions: s[i] with a non-constant index, or a local defined as such (b := s[i])
-		byteVars := map[types.Object]bool{}
-		isByteOf := func(e ast.Expr) bool {
-			e = unparen(e)
-			if id, ok := e.(*ast.Ident); ok {
-				return byteVars[info.ObjectOf(id)]
-			}
-			ix, ok := e.(*ast.IndexExpr)
-			if !ok {
-				return false
-			}
-			id, ok := unparen(ix.X).(*ast.Ident)
-			if !ok || info.ObjectOf(id) != param {
-				return false
-			}
-			return info.Types[ix.Index].Value == nil
+		// the byte tests may live in a predicate of the package that is handed the name
+		// (if !needsQuotes(s) { return s }): it is analysed like the encoder's own body
+		type target struct {
+			fd    *ast.FuncDecl
+			fn    *types.Func
+			param types.Object
 		}
+		targets := []target{{fd, fn, param}}
 		ast.Inspect(fd.Body, func(n ast.Node) bool {
-			if as, ok := n.(*ast.AssignStmt); ok && len(as.Lhs) == 1 && len(as.Rhs) == 1 && isByteOf(as.Rhs[0]) {
-				if id, ok := as.Lhs[0].(*ast.Ident); ok {
-					byteVars[info.ObjectOf(id)] = true
-				}
+			call, ok := n.(*ast.CallExpr)
+			if !ok || len(call.Args) != 1 {
+				return true
 			}
-			if rs, ok := n.(*ast.RangeStmt); ok && rs.Value != nil {
-				if call, ok := unparen(rs.X).(*ast.CallExpr); ok && len(call.Args) == 1 {
-					if id, ok := unparen(call.Args[0]).(*ast.Ident); ok && info.ObjectOf(id) == param {
-						if v, ok := rs.Value.(*ast.Ident); ok {
-							byteVars[info.ObjectOf(v)] = true
-						}
-					}
-				}
+			if id, ok := unparen(call.Args[0]).(*ast.Ident); !ok || info.ObjectOf(id) != param {
+				return true
+			}
+			h := calleeOf(info, call)
+			if h == nil || h.Pkg() == nil || h.Pkg().Path() != pkgENC || h == fn {
+				return true
+			}
+			hs := h.Type().(*types.Signature)
+			if hs.Results().Len() != 1 {
+				return true
+			}
+			if b, ok := hs.Results().At(0).Type().Underlying().(*types.Basic); !ok || b.Kind() != types.Bool {
+				return true
+			}
+			if hfd := c.funcDecl(h); hfd != nil && hfd.Body != nil && len(hfd.Type.Params.List) == 1 && len(hfd.Type.Params.List[0].Names) == 1 {
+				targets = append(targets, target{hfd, h, info.Defs[hfd.Type.Params.List[0].Names[0]]})
 			}
 			return true
 		})
-		pm := buildParents(fd.Body)
-		seen := map[ast.Expr]bool{}
-		n := 0
-		ast.Inspect(fd.Body, func(nd ast.Node) bool {
-			e, ok := nd.(ast.Expr)
-			if !ok || !isByteOf(e) {
-				return true
-			}
-			if as, ok := pm[nd].(*ast.AssignStmt); ok && len(as.Rhs) == 1 && as.Rhs[0] == e {
-				return true // the definition of a byte local
-			}
-			// the largest enclosing boolean expression over this byte alone
-			var best ast.Expr
-			for q := nd; q != nil; q = pm[q] {
-				x, ok := q.(ast.Expr)
-				if !ok {
-					break
+		for _, tg := range targets {
+			fd, fn, param := tg.fd, tg.fn, tg.param
+			_ = fn
+			func() {
+				// byte expressions: s[i] with a non-constant index, or a local defined as such (b := s[i])
+				byteVars := map[types.Object]bool{}
+				isByteOf := func(e ast.Expr) bool {
+					e = unparen(e)
+					if id, ok := e.(*ast.Ident); ok {
+						return byteVars[info.ObjectOf(id)]
+					}
+					ix, ok := e.(*ast.IndexExpr)
+					if !ok {
+						return false
+					}
+					id, ok := unparen(ix.X).(*ast.Ident)
+					if !ok || info.ObjectOf(id) != param {
+						return false
+					}
+					return info.Types[ix.Index].Value == nil
 				}
-				if tv, ok := info.Types[x]; ok && tv.Type != nil {
-					if b, ok := tv.Type.Underlying().(*types.Basic); ok && b.Info()&types.IsBoolean != 0 {
-						if _, good := byteSet(info, x, isByteOf); good {
-							best = x
+				ast.Inspect(fd.Body, func(n ast.Node) bool {
+					if as, ok := n.(*ast.AssignStmt); ok && len(as.Lhs) == 1 && len(as.Rhs) == 1 && isByteOf(as.Rhs[0]) {
+						if id, ok := as.Lhs[0].(*ast.Ident); ok {
+							byteVars[info.ObjectOf(id)] = true
 						}
 					}
-				}
-			}
-			if best == nil {
-				// a byte of the name used in a test that cannot be evaluated: only a problem when it
-				// decides between the spellings, which the enclosing condition tells
-				for q := nd; q != nil; q = pm[q] {
-					if is, ok := q.(*ast.IfStmt); ok && is.Cond.Pos() <= e.Pos() && e.End() <= is.Cond.End() {
-						n++
-						obs = append(obs, Obligation{Key: fmt.Sprintf("%s: byte test #%d keeps bytes outside the identifier alphabet on the quoted side", funcKey(fn), n), Pos: c.pos(is.Cond.Pos()), Verdict: UNDECIDED,
-							Detail: fmt.Sprintf("the test `%s` could not be evaluated over the byte values (unrecognised table or helper)", exprString(is.Cond))})
-						break
+					if rs, ok := n.(*ast.RangeStmt); ok && rs.Value != nil {
+						if call, ok := unparen(rs.X).(*ast.CallExpr); ok && len(call.Args) == 1 {
+							if id, ok := unparen(call.Args[0]).(*ast.Ident); ok && info.ObjectOf(id) == param {
+								if v, ok := rs.Value.(*ast.Ident); ok {
+									byteVars[info.ObjectOf(v)] = true
+								}
+							}
+						}
 					}
-					if fs, ok := q.(*ast.ForStmt); ok && fs.Cond != nil && fs.Cond.Pos() <= e.Pos() && e.End() <= fs.Cond.End() {
-						n++
-						obs = append(obs, Obligation{Key: fmt.Sprintf("%s: byte test #%d keeps bytes outside the identifier alphabet on the quoted side", funcKey(fn), n), Pos: c.pos(fs.Cond.Pos()), Verdict: UNDECIDED,
-							Detail: fmt.Sprintf("the loop condition `%s` could not be evaluated over the byte values (unrecognised table or helper)", exprString(fs.Cond))})
-						break
+					return true
+				})
+				pm := buildParents(fd.Body)
+				seen := map[ast.Expr]bool{}
+				n := 0
+				ast.Inspect(fd.Body, func(nd ast.Node) bool {
+					e, ok := nd.(ast.Expr)
+					if !ok || !isByteOf(e) {
+						return true
 					}
-				}
-				return true
-			}
-			if seen[best] {
-				return true
-			}
-			seen[best] = true
-			set, _ := byteSet(info, best, isByteOf)
-			if set['a'] == set[' '] {
-				return true // not a test of identifier characters (e.g. printable vs. escaped)
-			}
-			n++
-			o := Obligation{Key: fmt.Sprintf("%s: byte test #%d keeps bytes outside the identifier alphabet on the quoted side", funcKey(fn), n), Pos: c.pos(best.Pos()), Verdict: OK}
-			var wrong [256]bool
-			any := false
-			for b := 0; b < 256; b++ {
-				if strings.IndexByte(alphabet, byte(b)) == -1 && set[b] == set['a'] {
-					wrong[b], any = true, true
-				}
-			}
-			if any {
-				o.Verdict = VIOL
-				o.Detail = fmt.Sprintf("`%s` classifies the bytes {%s} like the letter a: a name made of identifier characters and such bytes is written bare and unescaped — the lexer ends the name at that byte (or reads other bytes than the name holds), so distinct names print alike or the output does not parse", exprString(best), describeSet(wrong))
-			} else {
-				o.Detail = fmt.Sprintf("`%s`: identifier side ⊆ [-a-zA-Z$._0-9]", exprString(best))
-			}
-			obs = append(obs, o)
-			return true
-		})
+					if as, ok := pm[nd].(*ast.AssignStmt); ok && len(as.Rhs) == 1 && as.Rhs[0] == e {
+						return true // the definition of a byte local
+					}
+					// the largest enclosing boolean expression over this byte alone
+					var best ast.Expr
+					for q := nd; q != nil; q = pm[q] {
+						x, ok := q.(ast.Expr)
+						if !ok {
+							break
+						}
+						if tv, ok := info.Types[x]; ok && tv.Type != nil {
+							if b, ok := tv.Type.Underlying().(*types.Basic); ok && b.Info()&types.IsBoolean != 0 {
+								if _, good := byteSet(info, x, isByteOf); good {
+									best = x
+								}
+							}
+						}
+					}
+					if best == nil {
+						// a byte of the name used in a test that cannot be evaluated: only a problem when it
+						// decides between the spellings, which the enclosing condition tells
+						for q := nd; q != nil; q = pm[q] {
+							if is, ok := q.(*ast.IfStmt); ok && is.Cond.Pos() <= e.Pos() && e.End() <= is.Cond.End() {
+								n++
+								obs = append(obs, Obligation{Key: fmt.Sprintf("%s: byte test #%d keeps bytes outside the identifier alphabet on the quoted side", funcKey(fn), n), Pos: c.pos(is.Cond.Pos()), Verdict: UNDECIDED,
+									Detail: fmt.Sprintf("the test `%s` could not be evaluated over the byte values (unrecognised table or helper)", exprString(is.Cond))})
+								break
+							}
+							if fs, ok := q.(*ast.ForStmt); ok && fs.Cond != nil && fs.Cond.Pos() <= e.Pos() && e.End() <= fs.Cond.End() {
+								n++
+								obs = append(obs, Obligation{Key: fmt.Sprintf("%s: byte test #%d keeps bytes outside the identifier alphabet on the quoted side", funcKey(fn), n), Pos: c.pos(fs.Cond.Pos()), Verdict: UNDECIDED,
+									Detail: fmt.Sprintf("the loop condition `%s` could not be evaluated over the byte values (unrecognised table or helper)", exprString(fs.Cond))})
+								break
+							}
+						}
+						return true
+					}
+					if seen[best] {
+						return true
+					}
+					seen[best] = true
+					set, _ := byteSet(info, best, isByteOf)
+					if set['a'] == set[' '] {
+						return true // not a test of identifier characters (e.g. printable vs. escaped)
+					}
+					n++
+					o := Obligation{Key: fmt.Sprintf("%s: byte test #%d keeps bytes outside the identifier alphabet on the quoted side", funcKey(fn), n), Pos: c.pos(best.Pos()), Verdict: OK}
+					var wrong [256]bool
+					any := false
+					for b := 0; b < 256; b++ {
+						if strings.IndexByte(alphabet, byte(b)) == -1 && set[b] == set['a'] {
+							wrong[b], any = true, true
+						}
+					}
+					if any {
+						o.Verdict = VIOL
+						o.Detail = fmt.Sprintf("`%s` classifies the bytes {%s} like the letter a: a name made of identifier characters and such bytes is written bare and unescaped — the lexer ends the name at that byte (or reads other bytes than the name holds), so distinct names print alike or the output does not parse", exprString(best), describeSet(wrong))
+					} else {
+						o.Detail = fmt.Sprintf("`%s`: identifier side ⊆ [-a-zA-Z$._0-9]", exprString(best))
+					}
+					obs = append(obs, o)
+					return true
+				})
+			}()
+		}
 	})
 	return obs
 }
